@@ -38,6 +38,7 @@ def run(ctx):
     ctx.guard(rule_f, ctx, ix)
     ctx.guard(rule_g, ctx, ix)
     ctx.guard(rule_h, ctx, ix)
+    ctx.guard(rule_j, ctx, ix)
     # a region's containment test must not depend on the absolute size of the numbers: the scale-free rule of the polygon helpers
     from ..report import BorrowedCtx
     from .C09 import rule_g as _scale_free
@@ -534,3 +535,66 @@ def rule_h(ctx, ix):
                                 'path: for a projection matrix whose last row is (0, 0, 0, w) with w != 1 (a scaled orthographic matrix, '
                                 'zoom kept in w) other points are selected than the region contains on screen',
                   shape='%s <- %s' % (norm(x), sorted(tags)), where=where(f, x))
+
+
+MUTATORS = {'append', 'extend', 'insert', 'pop', 'remove', 'sort', 'reverse', 'clear', 'fill', 'put', 'itemset', 'resize', 'update', 'setdefault'}
+TRANSFORMS = ('move_to', 'rotate_to', 'rotate_by')
+
+
+def rule_j(ctx, ix):
+    """Roi.copy() is a shallow copy: a copy and its original hold the same vertex lists.  That is sound as long as the
+    transformations replace a region's containers and never write into them."""
+    R = 'C08.j'
+    ctx.describe(R, 'move / rotate re-bind the fields of a region; they never write into a container a shallow copy shares', floor=10)
+    roi = ix.cls(ROI)
+    rets = returns_of(roi.resolve_func('copy'))
+    if len(rets) == 1 and unparse(rets[0].value) == 'copy.deepcopy(self)':
+        ctx.ob(R, 'Roi.copy', 'copy() is a deep copy: nothing is shared', True)
+        return
+    seen = set()
+    for c in roi.subclasses():
+        for name in TRANSFORMS:
+            f = c.resolve_func(name)
+            if f is None or id(f.node) in seen or not _concrete(f):
+                continue
+            seen.add(id(f.node))
+            me = f.self_name
+            alias = {}
+            for st in walk_no_nested(f.node):
+                if isinstance(st, ast.Assign) and len(st.targets) == 1 and isinstance(st.targets[0], ast.Name) \
+                        and isinstance(st.value, ast.Attribute) and isinstance(st.value.value, ast.Name) and st.value.value.id == me:
+                    alias[st.targets[0].id] = st.value.attr
+
+            def field_of(e):
+                while isinstance(e, ast.Subscript):
+                    e = e.value
+                if isinstance(e, ast.Attribute) and isinstance(e.value, ast.Name) and e.value.id == me:
+                    return e.attr
+                if isinstance(e, ast.Name) and e.id in alias:
+                    return alias[e.id]
+                return None
+            bad = []
+            for st in walk_no_nested(f.node):
+                tg = []
+                if isinstance(st, ast.Assign):
+                    tg = [t for T in st.targets for t in (T.elts if isinstance(T, (ast.Tuple, ast.List)) else [T])]
+                elif isinstance(st, (ast.AugAssign, ast.AnnAssign)):
+                    tg = [st.target]
+                elif isinstance(st, ast.Delete):
+                    tg = list(st.targets)
+                for t in tg:
+                    if isinstance(t, ast.Starred):
+                        t = t.value
+                    if isinstance(t, ast.Subscript) and field_of(t) is not None:
+                        bad.append((st, field_of(t)))
+                if isinstance(st, ast.Call):
+                    if isinstance(st.func, ast.Attribute) and st.func.attr in MUTATORS and field_of(st.func.value) is not None:
+                        bad.append((st, field_of(st.func.value)))
+                    for k in st.keywords:
+                        if k.arg == 'out' and field_of(k.value) is not None:
+                            bad.append((st, field_of(k.value)))
+            ctx.ob(R, f.construct, 'no in-place write into a field of the region', not bad,
+                   detail='%s writes into the container held in field %s in place (`%s`): Roi.copy() is a shallow copy, so the copy and '
+                          'the original hold that same container - transforming one of them moves the other as well, and a copy no '
+                          'longer contains the points it was made with' % (f.construct, sorted({b[1] for b in bad}), norm(bad[0][0]) if bad else ''),
+                   where=where(f, bad[0][0]) if bad else f.where)
